@@ -200,6 +200,17 @@ static std::string handle(const Case& c) {
     if (op == "reverse") {                  // S:k L:v
         return with_kind_t(kind_of(g[0]), g[1].list, [&](const auto& v) -> std::string { return show_maybe_index(ix::reverse(v)); });
     }
+    if (op == "argsort") {                  // S:k L:keys       (index::argsort(keys))
+        const auto& v = g[1].list; const auto k = kind_of(g[0]);
+        if (k == "vec") return show_maybe_index(ix::argsort(vec_of<size_t>(v)));
+        if (k == "veci") return show_maybe_index(ix::argsort(vec_of<int>(v)));
+        if (k == "sv") {
+            nm::utl::static_vector<int, 16> a; a.resize(v.size());
+            for (size_t i = 0; i < v.size(); i++) a[i] = (int)v[i];
+            return show_maybe_index(ix::argsort(a));
+        }
+        return "unsupported";
+    }
     if (op == "normalize_axis") {           // I:axis I:ndim  |  S:k L:axes I:ndim
         if (g[0].kind == 'I') return show_maybe_index(ix::normalize_axis((int)g[0].val, (size_t)g[1].val));
         return with_skind(kind_of(g[0]), g[1].list, [&](const auto& axes) -> std::string {
